@@ -17,6 +17,19 @@ check("C31", "property test with lexical reference model + exhaustive enumeratio
       "Lexical reading of 'same file' (no symlinks); case-sensitive platform.",
       "DESIGN.md §3 C31")
 
+check("C32", "property test: constructor recipes vs window evaluation of the resulting Predicate",
+      "Predicate trees (depth<=4, constants in [-8,8]) are built only through Predicate::{eq,ne,ge,le,gt,lt,and,or,invert}; the value erg returns is evaluated by an independent evaluator on every integer of [-11,11], which is an exact decision procedure for one-variable order/equality predicates, and compared with the set computed from the construction recipe.",
+      "Trusts my 20-line evaluator of Predicate values; only Int atoms over one variable.",
+      "DESIGN.md §3 C32")
+check("C11", "property test against a reference precedence-climbing parser",
+      "Operator expressions are generated as token chains (all binary operators of the documented table, prefix + - ~, member access, method calls, parentheses, three spacing styles, nesting depth<=3) and parsed by erg's Parser and by a reference precedence-climbing parser written from the table in the property statement; the trees must be identical.",
+      "The reference parser encodes the statement: all binary operators left-associative, a prefix operator's operand extends over tighter-binding operators only, `-digit` in prefix position is a literal. Spacings whose prefix/infix reading is not documented (`x -1`) are not generated.",
+      "DESIGN.md §3 C11")
+check("C08", "property test (weighted alphabet + corpus mutation + lexeme-built sources with known positions), worker processes with watchdog",
+      "Totality: arbitrary texts and mutated corpus files must lex without panic/hang, Ok streams end with EOF and balance Indent/Dedent, Err carries >=1 error. Positions: sources are built from lexeme lists (identifiers, numbers, operators, strings with every escape, interpolations, multi-line strings, comments, indentation, parentheses) so every token's true (line, column) is known and compared.",
+      "Columns are counted in characters. `\\x` escapes are only generated where the lexer documents them (single-line literal before an interpolation). Hangs are judged by the 60 s watchdog + two fresh re-runs.",
+      "DESIGN.md §3 C08")
+
 NOT_APPLICABLE = {}
 
 def main():
